@@ -14,6 +14,7 @@ import (
 	"runtime"
 	"slices"
 	"strings"
+	"sync"
 	"time"
 
 	"golang.org/x/tools/go/ssa"
@@ -85,6 +86,8 @@ type Machine struct {
 	varCache           map[*smt.Term]map[*smt.Term]bool
 	merge              *mergeState
 	lastCallPos        token.Pos
+	methCache          map[methKey]*ssa.Function
+	WantModel          bool // compute a model of the complete path condition at the end of the path
 }
 
 type deferred struct {
@@ -99,7 +102,8 @@ type frame struct {
 	caller           *frame
 	fn               *ssa.Function
 	block, prevBlock *ssa.BasicBlock
-	env              map[ssa.Value]value // dynamic values of SSA variables
+	env              []value // dynamic values of SSA variables, indexed by info.idx
+	info             *fnInfo
 	locals           []value
 	defers           *deferred
 	result           value
@@ -189,8 +193,8 @@ func (fr *frame) get(key ssa.Value) value {
 	case *ssa.Global:
 		return fr.m.globalCell(key)
 	}
-	if r, ok := fr.env[key]; ok {
-		return r
+	if i, ok := fr.info.idx[key]; ok {
+		return fr.env[i]
 	}
 	panic(fmt.Sprintf("get: no value for %T: %v", key, key.Name()))
 }
@@ -229,8 +233,72 @@ func (fr *frame) runDefers() {
 	}
 }
 
+// fnInfo numbers the SSA values of one function so that a frame's environment is a slice.
+type fnInfo struct {
+	idx map[ssa.Value]int
+	n   int
+}
+
+var fnInfoCache sync.Map // *ssa.Function -> *fnInfo
+
+func infoOf(fn *ssa.Function) *fnInfo {
+	if v, ok := fnInfoCache.Load(fn); ok {
+		return v.(*fnInfo)
+	}
+	fi := &fnInfo{idx: map[ssa.Value]int{}}
+	add := func(v ssa.Value) {
+		if _, ok := fi.idx[v]; !ok {
+			fi.idx[v] = fi.n
+			fi.n++
+		}
+	}
+	for _, p := range fn.Params {
+		add(p)
+	}
+	for _, fv := range fn.FreeVars {
+		add(fv)
+	}
+	for _, l := range fn.Locals {
+		add(l)
+	}
+	for _, b := range fn.Blocks {
+		for _, in := range b.Instrs {
+			if v, ok := in.(ssa.Value); ok {
+				add(v)
+			}
+		}
+	}
+	if fn.Recover != nil {
+		for _, in := range fn.Recover.Instrs {
+			if v, ok := in.(ssa.Value); ok {
+				add(v)
+			}
+		}
+	}
+	actual, _ := fnInfoCache.LoadOrStore(fn, fi)
+	return actual.(*fnInfo)
+}
+
+func (fr *frame) ix(v ssa.Value) int { return fr.info.idx[v] }
+
+type methKey struct {
+	t types.Type
+	m *types.Func
+}
+
+// lookupMethod caches per machine: ssa.Program.LookupMethod takes a program-wide lock,
+// which serialises the workers.
 func (m *Machine) lookupMethod(typ types.Type, meth *types.Func) *ssa.Function {
-	return m.prog.LookupMethod(typ, meth.Pkg(), meth.Name())
+	k := methKey{typ, meth}
+	if f, ok := m.methCache[k]; ok {
+		return f
+	}
+	f := m.prog.LookupMethod(typ, meth.Pkg(), meth.Name())
+	if m.methCache == nil {
+		m.methCache = map[methKey]*ssa.Function{}
+	}
+	m.methCache[k] = f
+	return f
 }
 
 func (m *Machine) step() {
@@ -278,43 +346,43 @@ func visitInstr(fr *frame, instr ssa.Instruction) continuation {
 			if p == nil {
 				panic(runtimeError("invalid memory address or nil pointer dereference"))
 			}
-			fr.env[instr] = load(mustDeref(instr.X.Type()), p)
+			fr.env[fr.ix(instr)] = load(mustDeref(instr.X.Type()), p)
 		} else if instr.Op == token.ARROW {
-			fr.env[instr] = m.recv(instr, fr.get(instr.X))
+			fr.env[fr.ix(instr)] = m.recv(instr, fr.get(instr.X))
 		} else {
-			fr.env[instr] = m.unop(instr, fr.get(instr.X))
+			fr.env[fr.ix(instr)] = m.unop(instr, fr.get(instr.X))
 		}
 
 	case *ssa.BinOp:
-		fr.env[instr] = m.binop(instr.Op, instr.X.Type(), fr.get(instr.X), fr.get(instr.Y))
+		fr.env[fr.ix(instr)] = m.binop(instr.Op, instr.X.Type(), fr.get(instr.X), fr.get(instr.Y))
 
 	case *ssa.Call:
 		fn, args := m.prepareCall(fr, &instr.Call)
-		fr.env[instr] = m.call(fr, instr.Pos(), fn, args)
+		fr.env[fr.ix(instr)] = m.call(fr, instr.Pos(), fn, args)
 
 	case *ssa.ChangeInterface:
-		fr.env[instr] = fr.get(instr.X)
+		fr.env[fr.ix(instr)] = fr.get(instr.X)
 
 	case *ssa.ChangeType:
-		fr.env[instr] = fr.get(instr.X) // (can't fail)
+		fr.env[fr.ix(instr)] = fr.get(instr.X) // (can't fail)
 
 	case *ssa.Convert:
-		fr.env[instr] = m.conv(instr.Type(), instr.X.Type(), fr.get(instr.X))
+		fr.env[fr.ix(instr)] = m.conv(instr.Type(), instr.X.Type(), fr.get(instr.X))
 
 	case *ssa.MultiConvert:
-		fr.env[instr] = m.conv(instr.Type(), instr.X.Type(), fr.get(instr.X))
+		fr.env[fr.ix(instr)] = m.conv(instr.Type(), instr.X.Type(), fr.get(instr.X))
 
 	case *ssa.SliceToArrayPointer:
-		fr.env[instr] = sliceToArrayPointer(instr.Type(), instr.X.Type(), fr.get(instr.X))
+		fr.env[fr.ix(instr)] = sliceToArrayPointer(instr.Type(), instr.X.Type(), fr.get(instr.X))
 
 	case *ssa.MakeInterface:
-		fr.env[instr] = iface{t: instr.X.Type(), v: fr.get(instr.X)}
+		fr.env[fr.ix(instr)] = iface{t: instr.X.Type(), v: fr.get(instr.X)}
 
 	case *ssa.Extract:
-		fr.env[instr] = fr.get(instr.Tuple).(tuple)[instr.Index]
+		fr.env[fr.ix(instr)] = fr.get(instr.Tuple).(tuple)[instr.Index]
 
 	case *ssa.Slice:
-		fr.env[instr] = m.slice(fr.get(instr.X), fr.get(instr.Low), fr.get(instr.High), fr.get(instr.Max))
+		fr.env[fr.ix(instr)] = m.slice(fr.get(instr.X), fr.get(instr.Low), fr.get(instr.High), fr.get(instr.Max))
 
 	case *ssa.Return:
 		switch len(instr.Results) {
@@ -386,17 +454,17 @@ func visitInstr(fr *frame, instr ssa.Instruction) continuation {
 		if n < 16 {
 			n = 16 // single-threaded execution: give unbuffered channels room
 		}
-		fr.env[instr] = make(chan value, n)
+		fr.env[fr.ix(instr)] = make(chan value, n)
 
 	case *ssa.Alloc:
 		var addr *value
 		if instr.Heap {
 			// new
 			addr = new(value)
-			fr.env[instr] = addr
+			fr.env[fr.ix(instr)] = addr
 		} else {
 			// local
-			addr = fr.env[instr].(*value)
+			addr = fr.env[fr.ix(instr)].(*value)
 		}
 		*addr = zero(mustDeref(instr.Type()))
 
@@ -411,39 +479,39 @@ func visitInstr(fr *frame, instr ssa.Instruction) continuation {
 		for i := range slice {
 			slice[i] = zero(tElt)
 		}
-		fr.env[instr] = slice[:l]
+		fr.env[fr.ix(instr)] = slice[:l]
 
 	case *ssa.MakeMap:
-		fr.env[instr] = makeMap(instr.Type().Underlying().(*types.Map).Key())
+		fr.env[fr.ix(instr)] = makeMap(instr.Type().Underlying().(*types.Map).Key())
 
 	case *ssa.Range:
-		fr.env[instr] = m.rangeIter(fr.get(instr.X))
+		fr.env[fr.ix(instr)] = m.rangeIter(fr.get(instr.X))
 
 	case *ssa.Next:
-		fr.env[instr] = fr.get(instr.Iter).(iter).next()
+		fr.env[fr.ix(instr)] = fr.get(instr.Iter).(iter).next()
 
 	case *ssa.FieldAddr:
 		p := fr.get(instr.X).(*value)
 		if p == nil {
 			panic(runtimeError("invalid memory address or nil pointer dereference"))
 		}
-		fr.env[instr] = &(*p).(structure)[instr.Field]
+		fr.env[fr.ix(instr)] = &(*p).(structure)[instr.Field]
 
 	case *ssa.Field:
-		fr.env[instr] = fr.get(instr.X).(structure)[instr.Field]
+		fr.env[fr.ix(instr)] = fr.get(instr.X).(structure)[instr.Field]
 
 	case *ssa.IndexAddr:
 		x := fr.get(instr.X)
 		idx := fr.get(instr.Index)
 		switch x := x.(type) {
 		case []value:
-			fr.env[instr] = &x[m.indexCheck(idx, len(x))]
+			fr.env[fr.ix(instr)] = &x[m.indexCheck(idx, len(x))]
 		case *value: // *array
 			if x == nil {
 				panic(runtimeError("invalid memory address or nil pointer dereference"))
 			}
 			a := (*x).(array)
-			fr.env[instr] = &a[m.indexCheck(idx, len(a))]
+			fr.env[fr.ix(instr)] = &a[m.indexCheck(idx, len(a))]
 		default:
 			panic(fmt.Sprintf("unexpected x type in IndexAddr: %T", x))
 		}
@@ -453,17 +521,17 @@ func visitInstr(fr *frame, instr ssa.Instruction) continuation {
 		idx := fr.get(instr.Index)
 		switch x := x.(type) {
 		case array:
-			fr.env[instr] = copyVal(x[m.indexCheck(idx, len(x))])
+			fr.env[fr.ix(instr)] = copyVal(x[m.indexCheck(idx, len(x))])
 		case string:
-			fr.env[instr] = x[m.indexCheck(idx, len(x))]
+			fr.env[fr.ix(instr)] = x[m.indexCheck(idx, len(x))]
 		case sstr:
-			fr.env[instr] = x.b[m.indexCheck(idx, len(x.b))]
+			fr.env[fr.ix(instr)] = x.b[m.indexCheck(idx, len(x.b))]
 		default:
 			panic(fmt.Sprintf("unexpected x type in Index: %T", x))
 		}
 
 	case *ssa.Lookup:
-		fr.env[instr] = m.lookup(instr, fr.get(instr.X), fr.get(instr.Index))
+		fr.env[fr.ix(instr)] = m.lookup(instr, fr.get(instr.X), fr.get(instr.Index))
 
 	case *ssa.MapUpdate:
 		mp := fr.get(instr.Map).(*omap)
@@ -473,20 +541,20 @@ func visitInstr(fr *frame, instr ssa.Instruction) continuation {
 		mp.insert(m, fr.get(instr.Key), copyVal(fr.get(instr.Value)))
 
 	case *ssa.TypeAssert:
-		fr.env[instr] = typeAssert(instr, fr.get(instr.X).(iface))
+		fr.env[fr.ix(instr)] = typeAssert(instr, fr.get(instr.X).(iface))
 
 	case *ssa.MakeClosure:
 		var bindings []value
 		for _, binding := range instr.Bindings {
 			bindings = append(bindings, fr.get(binding))
 		}
-		fr.env[instr] = &closure{instr.Fn.(*ssa.Function), bindings}
+		fr.env[fr.ix(instr)] = &closure{instr.Fn.(*ssa.Function), bindings}
 
 	case *ssa.Phi:
 		panic("unreachable") // phis are processed at block entry
 
 	case *ssa.Select:
-		fr.env[instr] = m.selectInstr(fr, instr)
+		fr.env[fr.ix(instr)] = m.selectInstr(fr, instr)
 
 	default:
 		panic(fmt.Sprintf("unexpected instruction: %T", instr))
@@ -761,11 +829,20 @@ func (m *Machine) call(caller *frame, callpos token.Pos, fn value, args []value)
 	panic(fmt.Sprintf("cannot call %T", fn))
 }
 
+var fnKeyCache sync.Map // *ssa.Function -> string (building the name walks go/types: cache it)
+
 func fnKey(fn *ssa.Function) string {
-	if o := fn.Origin(); o != nil {
-		return o.String()
+	if s, ok := fnKeyCache.Load(fn); ok {
+		return s.(string)
 	}
-	return fn.String()
+	var s string
+	if o := fn.Origin(); o != nil {
+		s = o.String()
+	} else {
+		s = fn.String()
+	}
+	fnKeyCache.Store(fn, s)
+	return s
 }
 
 func fnPkgPath(fn *ssa.Function) string {
@@ -854,18 +931,19 @@ func (m *Machine) callSSAPlain(caller *frame, callpos token.Pos, fn *ssa.Functio
 		caller: caller, // for panic/recover
 		fn:     fn,
 	}
-	fr.env = make(map[ssa.Value]value, 16)
+	fr.info = infoOf(fn)
+	fr.env = make([]value, fr.info.n)
 	fr.block = fn.Blocks[0]
 	fr.locals = make([]value, len(fn.Locals))
 	for i, l := range fn.Locals {
 		fr.locals[i] = zero(mustDeref(l.Type()))
-		fr.env[l] = &fr.locals[i]
+		fr.env[fr.ix(l)] = &fr.locals[i]
 	}
 	for i, p := range fn.Params {
-		fr.env[p] = args[i]
+		fr.env[fr.ix(p)] = args[i]
 	}
 	for i, fv := range fn.FreeVars {
-		fr.env[fv] = env[i]
+		fr.env[fr.ix(fv)] = env[i]
 	}
 	for fr.block != nil {
 		runFrame(fr)
@@ -946,7 +1024,7 @@ func executePhis(fr *frame) []ssa.Instruction {
 			fr.phitemps = append(fr.phitemps, fr.get(phi.Edges[predIndex]))
 		}
 		for i, phi := range phis {
-			fr.env[phi.(*ssa.Phi)] = fr.phitemps[i]
+			fr.env[fr.ix(phi.(*ssa.Phi))] = fr.phitemps[i]
 		}
 	}
 	return nonPhis
